@@ -53,20 +53,62 @@ def bitmap_consistent(self):
     return True     # record and go on: the checker reports, the run is not aborted
 
 
+class OmsWalkDoesNotEnd(Exception):
+    pass
+
+
+_WALK = {'limit': None}
+
+
 def install():
     if getattr(SA.Bitmap, '_vf_inv', False):
         return
+    # bounded progress of the OMS walk: an OMS cannot hold more elements than the network has nodes
+    orig_add = SA.OMS.add_element
+
+    def add_element(self, elem):
+        orig_add(self, elem)
+        if _WALK['limit'] is not None and len(self.el_list) > _WALK['limit']:
+            raise OmsWalkDoesNotEnd(f'OMS {self.oms_id} holds {len(self.el_list)} elements in a network of '
+                                    f'{_WALK["limit"] - 2} nodes: the walk {self.el_id_list[:8]}... does not end')
+    SA.OMS.add_element = add_element
     SA.Bitmap = icontract.invariant(bitmap_consistent, error=BitmapInvariantBroken)(SA.Bitmap)
     SA.Bitmap._vf_inv = True
 
 
 def plan(tier, seed):
     n = 80 if tier == 'quick' else 1400
-    kinds = ['multiband_shipped', 'multiband_gen', 'mixed', 'narrow', 'align', 'align', 'multiband_gen', 'narrow']
+    kinds = ['multiband_shipped', 'multiband_gen', 'mixed', 'narrow', 'align', 'align', 'multiband_gen', 'narrow',
+             'p2p', 'chassis']
     return [{'idx': i, 'kind': kinds[i % len(kinds)]} for i in range(n)]
 
 
 # ------------------------------------------------------------------------------------------------------------
+
+def build_trx_lines(rng, kind):
+    """Lines that end on a transceiver instead of a ROADM: a point-to-point link without ROADMs ('p2p'), or a mesh in
+    which one more transceiver is attached to a ROADM through a fibre line ('chassis')."""
+    ej = G.eqpt_json()
+    equipment = G.make_equipment(ej)
+    if kind == 'p2p':
+        # (a one-directional line has no opposite OMS to pair: not generated); a quarter of the lines are single
+        # spans without any amplifier: the spectrum map then has to come from the SI range
+        bare = rng.random() < 0.25
+        tj = G.gen_p2p(rng, both=True, max_spans=1 if bare else 4, user_amps=not bare)
+    else:
+        tj, _ = G.gen_topology(rng, max_sites=4, max_spans=2, max_km=110)
+        a = rng.choice([e['uid'] for e in tj['elements'] if e['type'] == 'Roadm'])
+        tj['elements'].append({'uid': 'trx X', 'type': 'Transceiver', 'metadata': G._loc(9, 9)})
+        for src, dst in (('trx X', a), (a, 'trx X')):
+            chain = [G.gen_fiber(rng, f'fiber ({src} → {dst})-{j}', max_km=100) for j in range(rng.randint(1, 2))]
+            tj['elements'] += chain
+            u = [src] + [c['uid'] for c in chain] + [dst]
+            tj['connections'] += [{'from_node': x, 'to_node': y} for x, y in zip(u[:-1], u[1:])]
+    network = G.make_network(tj, equipment)
+    SimParams.set_params({})
+    G.design(equipment, network)
+    return {'ej': ej, 'tj': tj, 'equipment': equipment, 'network': network}
+
 
 def build_mixed(rng):
     """C+L network in which some links are single band (user-placed single-band amplifiers)."""
@@ -145,9 +187,12 @@ def check_oms_list(ctx, network, equipment, oms_list, tag):
     member = {}
     for o in oms_list:
         ctx.count('oms_checked')
-        if not isinstance(o.el_list[0], Roadm) or not isinstance(o.el_list[-1], Roadm):
-            ctx.violation('oms-endpoints', f'{tag}: OMS {o.oms_id} does not run from a ROADM to a ROADM '
-                          f'({o.el_id_list[0]} .. {o.el_id_list[-1]})')
+        # an OMS runs from one ROADM to the next; a line that is directly connected to a transceiver (no ROADM in
+        # between) starts / ends on that transceiver
+        if not isinstance(o.el_list[0], (Roadm, Transceiver)) or not isinstance(o.el_list[-1], (Roadm, Transceiver)) \
+                or len(o.el_list) < 3:
+            ctx.violation('oms-endpoints', f'{tag}: OMS {o.oms_id} does not run from a ROADM (or transceiver) to the '
+                          f'next ({o.el_id_list[0]} .. {o.el_id_list[-1]})')
         for a, b in zip(o.el_list[:-1], o.el_list[1:]):
             if b not in set(network.successors(a)):
                 ctx.violation('oms-not-a-chain', f'{tag}: OMS {o.oms_id}: {a.uid} -> {b.uid} is not a link')
@@ -221,13 +266,21 @@ def run_network(case, ctx):
         except (NetworkTopologyError, ConfigurationError) as e:
             ctx.reject(f'{type(e).__name__}: {str(e)[:120]}')
             return
+    elif kind in ('p2p', 'chassis'):
+        scen = build_trx_lines(rng, kind)
+        ctx.count('networks_with_lines_ending_on_a_transceiver')
     else:
         scen = build_narrow(rng)
     SimParams.set_params({})
     _INV['fail'] = None
     n0 = _INV['n']
+    _WALK['limit'] = scen['network'].number_of_nodes() + 2
     try:
         oms_list = build_oms_list(scen['network'], scen['equipment'])
+    except OmsWalkDoesNotEnd as e:
+        ctx.violation('oms-walk-does-not-end', f'{kind}: {e}')
+        ctx.dump.update({'topology': scen['tj']})
+        return
     except SpectrumError as e:
         mech = 'oms-map-one-slot-short' if 'bitmap is not consistant' in str(e) else None
         ctx.violation('oms-list-not-built', f'{kind}: build_oms_list raised {e}', mechanism=mech)
